@@ -115,7 +115,7 @@ class Names:
         self.live = None
         group_names = set()
         for s_ in own_nodes(adv.node):
-            if isinstance(s_, ast.Assign) and isinstance(s_.value, ast.Call) and norm(s_.value.func) == "_Grouper":
+            if isinstance(s_, ast.Assign) and isinstance(s_.value, ast.Call) and norm(s_.value.func) == ctx.pkg.cls_name("itertools._Grouper"):
                 for t in s_.targets:
                     if isinstance(t, ast.Attribute):
                         self.live = t.attr
@@ -211,7 +211,7 @@ def r16_1_3_group(ctx, N) -> None:
                   and isinstance(n.ast.ops[0], (ast.Is, ast.IsNot)) and N.live in norm(n.ast)
                   and any(isinstance(x, ast.Name) and x.id == "self" for x in (n.ast.left, n.ast.comparators[0]))]
     ctx.check(len(live_tests) >= 1, "R16.1", u, "__anext__", "the group tests whether it is still the live group")
-    cursor = [n for n in main if (n.kind == "await" and any(a[0] == "libcoro" and "_GroupByState" in a[1]
+    cursor = [n for n in main if (n.kind == "await" and any(a[0] == "libcoro" and a[1].startswith(ctx.pkg.cls("itertools._GroupByState").fq + ".")
                                                             for a in ctx.vals.expr(u, n.info.get("value"), n)))
               or (n.kind == "call" and isinstance(n.ast.func, ast.Attribute) and n.ast.func.attr in (N.consume, N.step))  # type: ignore[union-attr]
               or (n.kind == "attr" and n.ast.attr in (N.key, N.value))]  # type: ignore[union-attr]
@@ -298,7 +298,7 @@ def r16_2(ctx, N) -> None:
         ctx.check(ok, "R16.2", u, r, "on return the shared live-group reference is the group being returned, "
                   "installed after the last suspension point", node=r)
         key = val.elts[0]
-        made = [c for c in own_nodes(u.node) if isinstance(c, ast.Call) and norm(c.func) == "_Grouper"]
+        made = [c for c in own_nodes(u.node) if isinstance(c, ast.Call) and norm(c.func) == ctx.pkg.cls_name("itertools._Grouper")]
         ctx.check(len(made) == 1 and norm(made[0].args[0]) == norm(key) and _is_state_expr(made[0].args[1]), "R16.2", u,
                   made[0] if made else r, "the returned group is bound to the returned key and the shared state")
     # scan loop (R16.3)
